@@ -52,6 +52,12 @@ def generic_rules(ctx, pid):
         if m is None:
             continue
         ctx.guarded(pid + '-G1', rel + '@tolerances', abstol.check, ctx, pid + '-G1', m)
+    from . import rangelist
+    ctx.rule(pid + '-G2', 'a configuration list is replaced by a range built from its end points only where every element was compared')
+    for rel in files:
+        m = by_rel.get(rel)
+        if m is not None:
+            ctx.guarded(pid + '-G2', rel + '@range-from-endpoints', rangelist.check, ctx, pid + '-G2', m)
 
 
 def thorough_extras(ctx, pid):
